@@ -111,5 +111,47 @@ func c08jsonValue(c *core.Ctx) {
 			}
 		}
 	}
+	// ToJSONString itself must be encoding/json.Marshal of its argument
+	if td := c.P.FindDecl("openapi/internal.ToJSONString"); td != nil {
+		marshal := false
+		param := ""
+		if ps := td.Decl.Type.Params.List; len(ps) == 1 && len(ps[0].Names) == 1 {
+			param = ps[0].Names[0].Name
+		}
+		var other []string
+		ast.Inspect(td.Decl.Body, func(n ast.Node) bool {
+			if call, isC := n.(*ast.CallExpr); isC {
+				name := core.FullName(core.Callee(td.Pkg, call))
+				switch {
+				case name == "encoding/json.Marshal" && len(call.Args) == 1 && core.ExprStr(call.Args[0]) == param:
+					marshal = true
+				case strings.HasPrefix(name, "strconv.") || strings.HasPrefix(name, "fmt."):
+					other = append(other, name)
+				}
+			}
+			return true
+		})
+		c.Check(marshal && len(other) == 0, R, "ToJSONString:shape", c.P.Pos(td.Decl.Pos()), "ToJSONString is encoding/json.Marshal of its argument", core.F("the JSON string encoder every example/enum/const/pattern goes through is no longer encoding/json.Marshal (other quoting calls: %v): Go-syntax quoting emits \\a, \\x01, \\U000e0001, which are not JSON", other))
+	} else {
+		c.Unresolved(R, "openapi/internal.ToJSONString")
+	}
+	// no Go-syntax quoting anywhere in the OpenAPI packages
+	nq := 0
+	for _, cs := range c.P.Calls() {
+		if !strings.HasPrefix(core.Rel(cs.Pkg.PkgPath), "openapi") {
+			continue
+		}
+		name := core.FullName(core.Callee(cs.Pkg, cs.Call))
+		bad := strings.HasPrefix(name, "strconv.Quote") || strings.HasPrefix(name, "strconv.AppendQuote")
+		if (name == "fmt.Sprintf" || name == "fmt.Fprintf" || name == "fmt.Sprint") && len(cs.Call.Args) > 0 {
+			if v := core.ConstOf(cs.Pkg, cs.Call.Args[0]); v != nil && (strings.Contains(v.ExactString(), "%q") || strings.Contains(v.ExactString(), "%#v")) {
+				bad = true
+			}
+		}
+		if bad {
+			nq++
+			c.Bad(R, core.F("%s:goquote#%d", core.DeclName(cs.Pkg, cs.Decl), nq), c.P.Pos(cs.Call.Pos()), "Go-syntax quoting ("+name+") in the OpenAPI converter", "Go quoting is not JSON quoting (control characters, DEL and non-printable runes get \\a / \\x.. / \\U........ escapes)")
+		}
+	}
 	c.Check(ok, R, "jsonValue:shape", c.P.Pos(d.Decl.Pos()), "Example.jsonValue encodes string values with ToJSONString and copies other literals verbatim", "the example/enum value encoder no longer JSON-encodes strings: a string value containing a quote or backslash breaks the generated OpenAPI document")
 }
